@@ -88,7 +88,7 @@ class FloatField(Field):
                     )
                     if len(value) <= self._size:
                         break
-        return value.rjust(self.size)
+        return value.replace(".", self.__sep).rjust(self.size)
 
     @property
     def value(self) -> Optional[float]:
